@@ -60,6 +60,87 @@ class Schedule:
         return 0
 
 
+REF_KEY: dict = {}          # ref id -> real agent id the job is about (filled by the enqueueJob wrapper)
+_ENQ_WRAPPED = [False]
+
+
+def wrap_enqueue():
+    """Remember which agent every enqueued job is about (needed to replay completion orders by identity)."""
+    if _ENQ_WRAPPED[0]:
+        return
+    _ENQ_WRAPPED[0] = True
+    from resonaate.parallel import JobExecutor
+    orig = JobExecutor.enqueueJob
+
+    def enqueue(self, registration):
+        res = orig(self, registration)
+        ref = self._unfinished_jobs[-1]
+        reg = registration._registrant  # noqa: SLF001
+        if hasattr(reg, "simulation_id"):
+            REF_KEY[ref.id] = reg.simulation_id
+        else:
+            h = getattr(registration, "_estimate_handle", None)
+            if h is not None:
+                REF_KEY[ref.id] = sched.get(h).simulation_id
+        return res
+
+    JobExecutor.enqueueJob = enqueue
+
+
+TAG_OF_PC = {"propagate": "asyncPropagate", "predict": "asyncPredict", "reward": "asyncCalculateReward",
+             "exec": "asyncExecuteTasking", "update": "asyncUpdateEstimate"}
+
+
+class IdSchedule:
+    """Completion orders by job identity: orders[(step, tag)] = [real agent ids in completion order].
+
+    Jobs not mentioned complete afterwards in FIFO order (the real decision may task other targets
+    than the TLC behaviour did)."""
+
+    def __init__(self, orders, step_fn):
+        self.orders = orders
+        self.step_fn = step_fn
+
+    def __call__(self, refs):
+        want = self.orders.get((self.step_fn(), refs[0].tag), [])
+        ids = [REF_KEY.get(r.id) for r in refs]
+        for w in want:
+            if w in ids:
+                return ids.index(w)
+        return 0
+
+
+def behaviours_from_sim(states, tmap, smap):
+    """Split the SIM records of a `-simulate` run into behaviours and extract, per behaviour,
+    the completion order of every batch and the environment outcomes (spec ids -> real ids)."""
+    behs, cur, prev, init = [], None, None, None
+    for st in states:
+        if st["lvl"] == 1:
+            init = st          # TLC evaluates the invariant on the initial state only once
+            continue
+        if prev is None or st["lvl"] <= prev["lvl"]:
+            cur = {"orders": {}, "env": {}, "steps": 0}
+            behs.append(cur)
+            prev = init
+        if prev is not None:
+            pc, k = prev["pc"], prev["k"]
+            if pc in TAG_OF_PC and st["pc"] == pc and len(st["pend"]) == len(prev["pend"]) - 1:
+                done = (set(prev["pend"]) - set(st["pend"])).pop()
+                rid = tmap.get(done, smap.get(done))
+                cur["orders"].setdefault((k, TAG_OF_PC[pc]), []).append(rid)
+                if pc == "reward":
+                    for s_, sid in smap.items():
+                        cur["env"][("vis", k, tmap[done], sid)] = s_ in st["visM"][done]
+                if pc == "exec":
+                    for t_, s_ in st["decision"]:
+                        if t_ == done:
+                            cur["env"][("slew", k, tmap[t_], smap[s_])] = [t_, s_] in st["slewOK"]
+                            cur["env"][("hit", k, tmap[t_], smap[s_])] = [t_, s_] in st["hit"]
+            cur["steps"] = max(cur["steps"], st["k"])
+        prev = st
+    return behs
+
+
 def numeric_digest(app):
     """Per-step numeric results that must not depend on the completion order."""
     d = {}
@@ -103,6 +184,8 @@ def run_traced(cfg: dict, n_steps: int, schedule: Schedule | None = None, env: t
     """Build the real scenario, run it with propagateTo, return (events, per-step digests, app)."""
     if env is not None:
         tracer.install_table_env()
+    wrap_enqueue()
+    REF_KEY.clear()
     app = su.build(cfg, db_path=db_path)
     if after_build is not None:
         after_build(app)
